@@ -1668,11 +1668,24 @@ theorem dispatchBody_run (mode : Mode) (c : Nat) (conn : Conn) (sig : Sig) (args
 
 theorem dispatchBody_queued (mode : Mode) (c : Nat) (conn : Conn) (sig : Sig) (args : List Bytes) (s1 : Sys)
     (har : sig.checkArity args.length = true)
-    (hq : (conn.tx.isSome && !SigTable.notQueued.contains sig.name) = true) :
+    (hq : (conn.tx.isSome && !SigTable.notQueued.contains sig.name) = true)
+    (hnm : SigTable.notInMulti.contains sig.name = false) :
     dispatchBody mode c conn sig args s1 =
       ((), (s1.updConn c fun x => { x with tx := x.tx.map (· ++ [(sig.name, args)]) }).emitS c .queued) := by
   unfold dispatchBody
-  simp only [har, hq, Bool.not_true, Bool.false_eq_true, if_false, if_true]
+  simp only [har, hq, hnm, Bool.not_true, Bool.false_eq_true, if_false, if_true]
+  simp only [bind, StateT.bind, modifyConn_run, emit_run]
+
+/-- (P)SUBSCRIBE / (P)UNSUBSCRIBE with a MULTI open: refused, `txFailed`, nothing queued -/
+theorem dispatchBody_refused (mode : Mode) (c : Nat) (conn : Conn) (sig : Sig) (args : List Bytes) (s1 : Sys)
+    (har : sig.checkArity args.length = true)
+    (hq : (conn.tx.isSome && !SigTable.notQueued.contains sig.name) = true)
+    (hnm : SigTable.notInMulti.contains sig.name = true) :
+    dispatchBody mode c conn sig args s1 =
+      ((), (s1.updConn c fun x => { x with txFailed := true }).emitS c
+        (.err (strBytes Msgs.COMMAND_IN_MULTI_MSG))) := by
+  unfold dispatchBody
+  simp only [har, hq, hnm, Bool.not_true, Bool.false_eq_true, if_false, if_true]
   simp only [bind, StateT.bind, modifyConn_run, emit_run]
 
 theorem set_getD_self (l : List Dict) (d : Nat) : l.set d (l.getD d []) = l := by
@@ -2986,18 +2999,36 @@ theorem pubsub_conn_updConn (s : Sys) (c c' : Nat) (f : Conn → Conn) (hf : ∀
     ((s.updConn c f).conn c').pubsub = (s.conn c').pubsub :=
   congrArg (fun k => k.2.2) (ckey_conn_updConn s c c' f hf)
 
-/-- a command that is queued (MULTI open, not EXEC/DISCARD/MULTI/WATCH, right arity): after the clean-up and the
+/-- a command that is queued (MULTI open, not EXEC/DISCARD/MULTI/WATCH, not (P)SUBSCRIBE/(P)UNSUBSCRIBE, right arity): after the clean-up and the
 clock refresh it is appended to the queue and `QUEUED` is the only reply -/
 theorem process_queued (mode : Mode) (c : Nat) (nameB : Bytes) (args : List Bytes) (s : Sys) (sig : Sig)
     (q : List (String × List Bytes))
     (hsig : lookupSig nameB = some sig) (har : sig.checkArity args.length = true)
-    (htx : (s.conn c).tx = some q) (hnq : sig.name ∉ SigTable.notQueued) :
+    (htx : (s.conn c).tx = some q) (hnq : sig.name ∉ SigTable.notQueued)
+    (hnm : sig.name ∉ SigTable.notInMulti) :
     processCommand mode c (nameB :: args) s =
       ((), ((prep s).updConn c fun x => { x with tx := x.tx.map (· ++ [(sig.name, args)]) }).emitS c .queued) := by
   have h : ((s.conn c).tx.isSome && !SigTable.notQueued.contains sig.name) = true := by
     have : SigTable.notQueued.contains sig.name = false := by simpa using hnq
     rw [htx, this]; rfl
-  rw [processCommand_known mode c nameB args s hsig, dispatchBody_queued mode c _ sig args _ har h]
+  rw [processCommand_known mode c nameB args s hsig, dispatchBody_queued mode c _ sig args _ har h
+    (by simpa using hnm)]
+
+/-- (P)SUBSCRIBE / (P)UNSUBSCRIBE with a MULTI open (right arity): after the clean-up and the clock refresh the
+transaction is marked failed and the error is the only reply; nothing is queued -/
+theorem process_refused (mode : Mode) (c : Nat) (nameB : Bytes) (args : List Bytes) (s : Sys) (sig : Sig)
+    (q : List (String × List Bytes))
+    (hsig : lookupSig nameB = some sig) (har : sig.checkArity args.length = true)
+    (htx : (s.conn c).tx = some q) (hnq : sig.name ∉ SigTable.notQueued)
+    (hnm : sig.name ∈ SigTable.notInMulti) :
+    processCommand mode c (nameB :: args) s =
+      ((), ((prep s).updConn c fun x => { x with txFailed := true }).emitS c
+        (.err (strBytes Msgs.COMMAND_IN_MULTI_MSG))) := by
+  have h : ((s.conn c).tx.isSome && !SigTable.notQueued.contains sig.name) = true := by
+    have : SigTable.notQueued.contains sig.name = false := by simpa using hnq
+    rw [htx, this]; rfl
+  rw [processCommand_known mode c nameB args s hsig, dispatchBody_refused mode c _ sig args _ har h
+    (by simpa using hnm)]
 
 /-- PUBLISH inside MULTI: nothing reaches any subscriber at queue time -/
 theorem publish_queued_out (s : Sys) (mode : Mode) (c : Nat) (nameB ch msg : Bytes) (cl : List Int) (pk)
@@ -3011,7 +3042,7 @@ theorem publish_queued_out (s : Sys) (mode : Mode) (c : Nat) (nameB ch msg : Byt
   have e : s' = (((prep (s.beginEvent.withHints cl pk)).updConn c
       fun x => { x with tx := x.tx.map (· ++ [(sigPublish.name, [ch, msg])]) }).emitS c .queued) := by
     show (processCommand mode c [nameB, ch, msg] (s.beginEvent.withHints cl pk)).2 = _
-    rw [process_queued mode c nameB [ch, msg] (s.beginEvent.withHints cl pk) sigPublish q hsig rfl htx (by decide)]
+    rw [process_queued mode c nameB [ch, msg] (s.beginEvent.withHints cl pk) sigPublish q hsig rfl htx (by decide) (by decide)]
   refine ⟨?_, ?_, ?_⟩
   · rw [e, Sys.emitS_out, Sys.updConn_out, prep_out, closed_conn_updConn _ c c (fun x => { x with tx := x.tx.map (· ++ [(sigPublish.name, [ch, msg])]) }) (fun _ => rfl), prep_closed]
     rfl
